@@ -10,7 +10,9 @@
    budget is (node limit, answers of the deadline callback at the successive checkpoints) and is
    universally quantified everywhere: `unlimited` is the plain operation, anything else its try_* twin. *)
 Require Import KV.Sdd.Model KV.Sdd.Sem KV.Sdd.Spec KV.Sdd.History.
-Require Import KV.Sdd.Hoare KV.Sdd.MainProofs.
+Require Import KV.Sdd.Decomp KV.Sdd.Hoare KV.Sdd.MainProofs KV.Sdd.WmcProofs.
+Require Import KV.Sdd.Canon3Defs KV.Sdd.Canon3 KV.Sdd.Canon3b.
+Require Import QArith.
 
 (* (1) apply is exact: whatever the budget and the fuel, IF it returns a handle, the handle denotes
    op(a, b); and whatever the outcome, the invariant holds afterwards and old handles are untouched. *)
@@ -100,6 +102,44 @@ Theorem C07_history_exact :
 Proof. exact history_exact. Qed.
 Print Assumptions C07_history_exact.
 
+(* (3) weighted model count = truth-table weighted sum.
+   `wsum pos neg vs f sigma0` is the sum over all 2^|vs| assignments of the variables vs (the other
+   variables read from sigma0) of the product of the literal weights times f.  Hypotheses, all decidable
+   and all evaluated by the check on every model state it reaches:
+     - normalised vs m : pos v + neg v = 1 for the variables of vs (the Independent encoding; this is the
+       smoothness caveat: the trimmed diagram is not smooth, a variable that does not occur on a path
+       contributes the factor 1, which equals pos+neg only for normalised weights; exclusive-group
+       variables (neg = 1) are outside this theorem and are checked against the truth-table sum only
+       numerically, on formulas conjoined with the group's exactly-one constraint);
+     - lits_in vs m : every literal of the arena is over a variable of vs;
+     - decomp_ok m : every (prime, sub) element of every Decision node is decomposable (disjoint
+       variable sets).  PARTIAL: that every manager reachable by a history satisfies decomp_ok is not
+       proved (it needs the vtree-respecting invariant through apply); the check evaluates decomp_ok on
+       the final manager of every generated history.  Full statement (not proved):
+         forall fuel ops s outs, run_from fuel rinit ops = (s, outs) -> normalised vs (rm s) = true ->
+           lits_in vs (rm s) = true -> forall i, wmc (rm s) (hnd s i) == wsum ... (feval . (frm s i)). *)
+Theorem C07_wmc_partial :
+  forall m vs id sigma0,
+    MInv m -> decomp_ok m = true -> lits_in vs m = true -> normalised vs m = true -> validh m id ->
+    wmc m id == wsum (pos_of m) (neg_of m) vs (fun s => b2q (den m id s)) sigma0.
+Proof. exact wmc_sum. Qed.
+Print Assumptions C07_wmc_partial.
+
+(* (4) BOUNDED canonicity, three variables.  m3 order / h3 order: the model's manager after registering
+   variables 0,1,2 in the given order and building all 256 functions as disjunctions of minterms, and
+   the table of their handles.  Proved by evaluating the sweep (2 x 65536 applies + 256 negates) with the
+   kernel's VM and lifting with forallb_forall: the 256 handles are pairwise distinct, each denotes its
+   truth table, and apply / negate of ANY operands among them return exactly the handle of the result's
+   truth table - so on this domain handles are equal iff truth tables are equal.
+   This is a statement about a finite domain.  Unbounded canonicity,
+       forall history, forall slots i j, (forall sigma, den i sigma = den j sigma) -> handle i = handle j,
+   is NOT proved (Darwiche's canonicity theorem for compressed trimmed SDDs over a growing vtree); the
+   check tests it on every generated handle. *)
+Theorem C07_canonical_3 :
+  canonical3 FUEL3 (m3 [0; 1; 2]%N) (h3 [0; 1; 2]%N) /\ canonical3 FUEL3 (m3 [2; 0; 1]%N) (h3 [2; 0; 1]%N).
+Proof. exact (conj canonical3_012 canonical3_201). Qed.
+Print Assumptions C07_canonical_3.
+
 (* ---- non-vacuity ------------------------------------------------------------------------------------ *)
 (* the empty manager satisfies the invariant *)
 Example C07_inv_inhabited : MInv mgr_new.
@@ -107,8 +147,8 @@ Proof. exact MInv_new. Qed.
 
 (* a history with three variables introduced in the order 2,0,1; (x0&x1)|(x0&x2) is built, then the
    same disjunction is requested with the deadline expiring at the 5th checkpoint (DeadlineExceeded,
-   code 1), with a node budget of 9 (NodeBudgetExceeded, code 2: nine nodes exist already ... the
-   result is cached by then, so it succeeds), and finally negated.  Codes: 0 = Ok. *)
+   code 1), with a node budget of 9 (NodeBudgetExceeded, code 2: nine nodes exist already and the
+   operation allocates), then plain, and finally negated under a generous budget.  Codes: 0 = Ok. *)
 Example C07_example :
   let ops := [OVar 2 (1#2) (1#2) Indep; OVar 0 (1#2) (1#2) Indep; OVar 1 (1#2) (1#2) Indep;
               OLit 0 true None; OLit 1 true None; OLit 2 true None;
